@@ -288,8 +288,10 @@ def parseLine (precision : String) : Line → Option (Option RawPoint)
 cannot be un-gzipped: 400. A line that fails (does not parse, or its time stamp × precision leaves the int64 ns range) makes
 `models.ParsePointsWithPrecision` return an error: 400 and NOTHING of the body is written; a missing `db` parameter: 400 (checked
 after parsing); a missing `rp` parameter is passed on as "" (⇒ default retention policy). `precision` "" counts as "n". The
-`consistency` parameter is never read (not an argument here): `WritePoints` always gets `ConsistencyLevelAll` and ignores it. -/
-def serveWrite (enc : BodyEnc) (db rp precision : String) (lines : List Line) : Nat × Option Op :=
+`consistency` parameter is never read (not an argument here): `WritePoints` always gets `ConsistencyLevelAll` and ignores it.
+`closed`: the TaskMaster has been drained / closed (`writesClosed`): `WritePoints` answers `ErrTaskMasterClosed`, which is no client
+error (`influxdb.IsClientError`), so the handler answers 500 — after the body was parsed and the `db` parameter checked. -/
+def serveWrite (enc : BodyEnc) (db rp precision : String) (lines : List Line) (closed : Bool := false) : Nat × Option Op :=
   match enc with
   | .gzipBadHeader => (400, none)
   | .gzipTruncated => (400, none)
@@ -298,6 +300,7 @@ def serveWrite (enc : BodyEnc) (db rp precision : String) (lines : List Line) : 
     let parsed := lines.filterMap (parseLine precision)
     if parsed.any (·.isNone) then (400, none)
     else if db == "" then (400, none)
+    else if closed then (500, none)
     else (204, some (.write db rp (parsed.filterMap id)))
 
 def stepWith (fp : TM → Point → TM) (s : TM) : Op → TM
